@@ -373,6 +373,8 @@ def _standin(repo, seed, tier):
 
 _standin.tiers = ('quick', 'thorough')
 BOUNDED = [_standin]
+from contracts.common import structural_signature_key as _sigkey
+STRUCTURAL = [_sigkey]
 
 NOT_DECIDED = [
     'tree -> argument shapes (_iter_arguments) and bracket_start: functional correctness pending (bounded grid planned)',
